@@ -9,6 +9,17 @@ NOTE = old_checks["C12"]["level_note"]
 TECH = "Lean 4 theorem about an executable model + regenerated facts + differential correspondence"
 
 LEVEL = {
+ "C01": "Lean 4 theorems over a model of VolFile::CreateArchive / open / per-member calls: C01_roundtrip (for every file list that fits: one member "
+        "per input in case-insensitive order, exact sizes, 'uncompressed', stream and extraction return the input bytes), lookup in any letter "
+        "case, C01_perm (bytes or refusal identical for every permutation of the inputs), refusal of duplicate names and of output = input, "
+        "failure atomicity; layout constants and record layouts regenerated from the source with bridging lemmas; real pack/reopen/extract runs "
+        "on scratch directories under ASan/UBSan (file counts, all size residues mod 4, chunk-size boundaries, all orderings of <= 4 files, path "
+        "spellings) compared with the compiled model, with before/after snapshots of every pre-existing file",
+ "C02": "independent format description Vol.Spec.StrictWF (proved sound and complete for its executable form, unique description), theorems "
+        "C02_writer_conforms (every archive the writer model produces is StrictWF), C02_binary_search, C02_reader_accepts_ref (every archive of the "
+        "independent reference encoder — unused trailing slots, over-long index sections, LZH and other compression codes — opens with the same "
+        "names, sizes, kinds, payloads); real CreateArchive output checked by the executable StrictWF and reference-encoded archives opened by the "
+        "real VolFile",
  "C04": "refinement theorem in Lean 4: for every input and every finite drain schedule (GetData of any sizes, GetInternalBuffer, mixed) the "
         "delivered bytes are exactly a prefix of the reference decoder's output (textbook LZSS over the unbounded history), calls fail only "
         "at the tree's capacity, the reference terminates on every input; window/queue invariants (all indices < 4096, maxFill + 60 < 4096 "
